@@ -198,31 +198,52 @@ Proof. repeat split; vm_compute; reflexivity. Qed.
 (* ==== end of block (unit meta) ==== *)
 
 (* ==== system building from source (unit metabuild) ==== *)
-(* The builders of the emulator's system - src/emu/system.c create_thread, create_proc, create_loom and the body of
-   create_system's loop over the streams (emitted as stream_body; `continue` = the end of the body); src/emu/loom.c
-   loom_find_proc, loom_add_proc, loom_load_metadata; src/emu/proc.c proc_find_thread, proc_add_thread, proc_load_metadata -
-   are regenerated into Gen/MetaBuild_gen.v on every run (unit metabuild, statement by statement; prelude
-   Emu/MetaBuildPre.v: the tables under construction ARE the fact tables of MetaDefs.state - DL lists and uthash tables as
-   insertion-ordered lists -, struct loom / proc / thread pointers are handles (NULL, a table entry, or the pending
-   malloc'ed object), a struct stream * is the stream's claims: the gates and loaders of unit meta act on them with the
-   meaning C15_stream_claims_from_source gives them).
+(* The builders of the emulator's system are regenerated into Gen/MetaBuild_gen.v on every run (unit metabuild, statement by
+   statement): src/emu/system.c find_loom (the walk over the DL list sys->looms), create_thread, create_proc, create_loom,
+   system_get_lpt, the body of create_system's loop over the streams (stream_body; `continue` = the end of the body) and the
+   `for` statement itself (create_system_loop: checked on the AST to be exactly
+   `for (struct stream *s = trace->streams; s; s = s->next)` followed by `return 0`); src/emu/loom.c loom_init_begin,
+   loom_find_proc, loom_add_proc, loom_load_metadata; src/emu/proc.c proc_init_begin, proc_find_thread, proc_add_thread,
+   proc_load_metadata; src/emu/thread.c thread_init_begin.  Prelude Emu/MetaBuildPre.v: the tables under construction ARE
+   the fact tables of MetaDefs.state (DL lists and uthash tables as insertion-ordered lists), struct loom / proc / thread
+   pointers are handles (NULL, a table entry, or the pending malloc'ed object), a struct stream * is the stream's claims:
+   the gates and loaders of unit meta act on them with the meaning C15_stream_claims_from_source gives them.
+   C15_find_loom_from_source: the generated list walk with strcmp = membership of the name in the loom table;
+   C15_init_begin_from_source: the generated loom_init_begin (memset, strchr '/', snprintf's length against PATH_MAX,
+     id = name), proc_init_begin and thread_init_begin (memset, field stores, snprintf "proc.%d" / "thread.%d" as lengths)
+     = the '/' test and the pid / tid stores (a name shorter than PATH_MAX: name_fits, now a hypothesis);
    C15_stream_body_from_source: one run of the generated loop body = one MetaDefs.step_gen add_cpu (same refusals; the
      same looms, CPUs, processes, app ids, ranks, threads appended in the same order) and fills the stream's lpt slot
-     with ITS loom, process and thread (what system_get_lpt hands to the models);
-   C15_system_build_raw_from_source: folding it over the streams from the empty system = MetaDefs.raw;
+     with ITS loom, process and thread;
+   C15_system_build_raw_from_source: the GENERATED loop statement over the streams from the empty system
+     (MetaBuildGenProofs.run_streams = create_system_loop, keeping the state) = MetaDefs.raw;
    C15_system_build_from_source: hence MetaDefs.build = finish on the state the generated code built (finish: the sorts,
-     tied by unit cmp_meta, and the final checks of system_init), and a refusal of the generated loop is a refusal of build.
+     tied by unit cmp_meta, and the final checks of system_init), and a refusal of the generated loop is a refusal of build;
+   C15_system_get_lpt_from_source: on that state the generated system_get_lpt never dies and hands every stream of the
+     trace the slot holding its own loom, process and thread.
    Invariant carried: every loom name in the table passed loom_init_begin's '/' test (find_loom precedes the test).
-   Still primitives of the prelude (not translated): find_loom, loom_init_begin (loom.c / system.c), proc_init_begin,
-   thread_init_begin, the accessors proc_get_pid / proc_set_loom / thread_get_tid / thread_set_proc, HASH_FIND_INT /
-   HASH_ADD_INT, DL_APPEND, malloc, is_init (0 while the system is built), the find-or-insert half of load_cpus (hand model
-   add_cpu, as in unit meta); the loop statement itself (MetaBuildGenProofs.run_streams) and system_get_lpt (a look-up in
-   the map stream_data_set fills) are hand-written. *)
+   Still primitives of the prelude: the accessors proc_get_pid / proc_set_loom / thread_get_tid / thread_set_proc,
+   HASH_FIND_INT / HASH_ADD_INT, DL_APPEND, malloc, is_init (0 while the system is built), set_hostname and the virtual
+   CPU of a loom (not part of the merge), the find-or-insert half of load_cpus (hand model add_cpu, as in unit meta);
+   create_system's calloc of the lpt array is not translated (the array is a list that grows). *)
 From OV Require Emu.MetaBuildPre Gen.MetaBuild_gen Proofs.MetaBuildGenProofs.
 Module MB.
 Import MetaBuildPre MetaBuildGenProofs.
 
-Theorem C15_stream_body_from_source : forall b s, looms_ok (b_st b) ->
+Theorem C15_find_loom_from_source : forall n b,
+  MetaBuild_gen.find_loom tt (Some n) b = ROk (if in_dec name_dec n (st_looms (b_st b)) then Some (LTab n) else None, b).
+Proof. exact find_loom_eq. Qed.
+Print Assumptions C15_find_loom_from_source.
+
+Theorem C15_init_begin_from_source :
+  (forall n b, (Z.of_nat (length n) < 4096)%Z ->
+     MetaBuild_gen.loom_init_begin (Some LPend) (Some n) b = if valid_name n then ROk (0%Z, with_ploom b n) else RErr E_FAIL) /\
+  (forall pid b, MetaBuild_gen.proc_init_begin (Some PPend) pid b = ROk (0%Z, with_pproc b (fst (b_pproc b), pid))) /\
+  (forall tid b, MetaBuild_gen.thread_init_begin (Some TPend) tid b = ROk (0%Z, with_pthr b (fst (b_pthr b), tid))).
+Proof. exact (conj loom_init_begin_eq (conj proc_init_begin_eq thread_init_begin_eq)). Qed.
+Print Assumptions C15_init_begin_from_source.
+
+Theorem C15_stream_body_from_source : forall b s, looms_ok (b_st b) -> name_fits s ->
   match step_gen add_cpu (b_st b) s with
   | Ok x' => exists b', MetaBuild_gen.stream_body tt s b = ROk (0%Z, b') /\ b_st b' = x' /\
                b_lpt b' = b_lpt b ++ [lpt_of s] /\ b_data b' = b_data b ++ [(s, length (b_lpt b))]
@@ -231,21 +252,33 @@ Theorem C15_stream_body_from_source : forall b s, looms_ok (b_st b) ->
 Proof. exact stream_body_from_source. Qed.
 Print Assumptions C15_stream_body_from_source.
 
-Theorem C15_system_build_raw_from_source : forall m,
+Theorem C15_system_build_raw_from_source : forall m, Forall name_fits m ->
   match raw m with
-  | Ok x => exists b, run_streams m b0 = ROk b /\ b_st b = x /\ b_lpt b = map lpt_of m
+  | Ok x => exists b, run_streams m b0 = ROk b /\ b_st b = x /\ b_lpt b = map lpt_of m /\ b_data b = combine m (seq 0 (length m))
   | _ => run_streams m b0 = RErr E_FAIL
   end.
 Proof. exact system_build_raw_from_source. Qed.
 Print Assumptions C15_system_build_raw_from_source.
 
-Theorem C15_system_build_from_source : forall m,
+Theorem C15_system_build_from_source : forall m, Forall name_fits m ->
   match run_streams m b0 with
   | ROk b => build m = finish (b_st b) /\ b_lpt b = map lpt_of m
   | RErr _ => forall sys, build m <> Ok sys
   end.
 Proof. exact system_build_from_source. Qed.
 Print Assumptions C15_system_build_from_source.
+
+(* run_streams IS the generated loop statement *)
+Theorem C15_create_system_loop_from_source : forall m b,
+  run_streams m b = match MetaBuild_gen.create_system_loop tt m b with ROk (_, b') => ROk b' | RErr e => RErr e end.
+Proof. reflexivity. Qed.
+Print Assumptions C15_create_system_loop_from_source.
+
+Theorem C15_system_get_lpt_from_source : forall m b s, Forall name_fits m -> run_streams m b0 = ROk b ->
+  exists r, MetaBuild_gen.system_get_lpt s b = ROk (r, b) /\
+    (forall i, r = Some i -> nth_error (b_lpt b) i = Some (lpt_of s)) /\ (In s m -> r <> None).
+Proof. exact system_get_lpt_from_source. Qed.
+Print Assumptions C15_system_get_lpt_from_source.
 
 Example C15_ex_build_three :
   st_of (run_streams [ex_s1; ex_s2; ex_s3] b0) = match raw [ex_s1; ex_s2; ex_s3] with Ok x => Some x | _ => None end /\
